@@ -16,9 +16,12 @@
 //         d                                                  thread destroying the promise after all invocations
 //         cbthrow                                            contract violation: the callback_await callback throws (first call)
 //         sched ...
+//         round                                              the next awaited operation on the SAME helper object (future_conv and
+//                                                            call_fn_future_awaiter are re-armed with <<); own g/r/d/pre/imm/sched lines
 //         end
 // Output: op lines `s <tid> <op> slot|owner ...`, semantic lines `alloc heap|stor`, `free heap|stor`, `cb <obs>`,
-//         `conv <in>`, `ret t<k> <b>`, then `promise-destroyed`, `outer ...` (conv), `final cb= conv= allocs= frees=`.
+//         `conv <in>`, `ret t<k> <b>`, then `promise-destroyed`, `outer ...` (conv), `final cb= conv= allocs= frees=`
+//         (counters per operation); `round` separates the operations.
 #include "shim/verif_shim.h"
 #include "shim/rename_on.h"
 #include <cocls/future.h>
@@ -289,12 +292,15 @@ struct CfObj {
     }
 };
 
-struct Case {
-    std::vector<std::string> hdr;
+struct Round {
     std::vector<std::vector<std::string>> threads;   // g / r / d lines in order
     std::vector<std::string> pre, imm;
     std::vector<int> sched;
     bool cbthrow = false;
+};
+struct Case {
+    std::vector<std::string> hdr;
+    std::vector<Round> rounds;
 };
 
 template <typename T>
@@ -312,9 +318,27 @@ struct Runner {
         fn();
     }
 
-    void run(const Case &c) {
+    std::function<void()> round_end;  // between two operations on the same helper
+
+    void run(const Case &cs) {
         g_env = &env;
+        for (std::size_t k = 0; k < cs.rounds.size(); k++) {
+            if (k) {
+                env.log("round");
+                S().reset();
+            }
+            run_round(cs.rounds[k]);
+            if (round_end) round_end();
+        }
+        if (cleanup) cleanup();
+    }
+
+    void run_round(const Round &c) {
         env.cb_throws = c.cbthrow;
+        env.cb_calls = env.conv_calls = 0;
+        int allocs0 = trk::allocs + cstor::allocs, frees0 = trk::frees + cstor::frees;
+        src.prom.reset();
+        src.published = false;
         src.pre = c.pre;
         src.imm = c.imm;
         S().track_only = true;
@@ -360,8 +384,8 @@ struct Runner {
         env.log("promise-destroyed");
         if (report) report();
         env.log("final cb=" + std::to_string(env.cb_calls) + " conv=" + std::to_string(env.conv_calls) +
-                " allocs=" + std::to_string(trk::allocs + cstor::allocs) + " frees=" + std::to_string(trk::frees + cstor::frees));
-        if (cleanup) cleanup();
+                " allocs=" + std::to_string(trk::allocs + cstor::allocs - allocs0) +
+                " frees=" + std::to_string(trk::frees + cstor::frees - frees0));
     }
 };
 
@@ -400,7 +424,7 @@ static void setup_simple(Runner<T> &R, const std::string &adapter, const std::st
                 else callback_await<future<T> &>(std::move(cb), **ext);
             });
         };
-        R.cleanup = [ext] { ext->reset(); };
+        R.round_end = [ext] { ext->reset(); };
     } else if (adapter == "mkprom") {
         R.reg = [&R, env, alloc] {
             auto cb = [env](future<T> &f) {
@@ -442,6 +466,7 @@ static void setup_conv(Runner<From> &R, std::shared_ptr<Conv> conv, bool hlp) {
         if (!f.ready()) { R.env.log("outer pending"); return; }
         R.env.log("outer " + observe_future(f) + " hv=" + (f._state != future_common::State::not_value ? "1" : "0"));
     };
+    R.round_end = [outer] { outer->reset(); };
     R.cleanup = [conv, outer]() mutable { outer->reset(); conv.reset(); };
 }
 
@@ -498,12 +523,15 @@ int main() {
     while (std::getline(std::cin, line)) {
         auto w = split(line);
         if (w.empty()) continue;
-        if (w[0] == "case") { c = Case(); c.hdr = w; continue; }
-        if (w[0] == "g" || w[0] == "r" || w[0] == "d") { c.threads.push_back(w); continue; }
-        if (w[0] == "pre") { c.pre = w; continue; }
-        if (w[0] == "imm") { c.imm = w; continue; }
-        if (w[0] == "cbthrow") { c.cbthrow = true; continue; }
-        if (w[0] == "sched") { for (std::size_t i = 1; i < w.size(); i++) c.sched.push_back(atoi(w[i].c_str())); continue; }
+        if (w[0] == "case") { c = Case(); c.hdr = w; c.rounds.emplace_back(); continue; }
+        if (c.rounds.empty()) continue;
+        Round &rd = c.rounds.back();
+        if (w[0] == "round") { c.rounds.emplace_back(); continue; }
+        if (w[0] == "g" || w[0] == "r" || w[0] == "d") { rd.threads.push_back(w); continue; }
+        if (w[0] == "pre") { rd.pre = w; continue; }
+        if (w[0] == "imm") { rd.imm = w; continue; }
+        if (w[0] == "cbthrow") { rd.cbthrow = true; continue; }
+        if (w[0] == "sched") { for (std::size_t i = 1; i < w.size(); i++) rd.sched.push_back(atoi(w[i].c_str())); continue; }
         if (w[0] != "end") continue;
         std::cout << "case " << c.hdr[1] << std::endl;
         pid_t pid = fork();
